@@ -32,6 +32,14 @@ depending on the file (a wider file holds values the narrower type cannot repres
 int64, and the column order differs from file to file.  ``desc['columns'][table]`` lists (name, kind) of every column
 written, ``file_rec['tab'][table]`` the per-file order / formats; ``table_cell`` returns the full value written.
 
+``header_variation=<int>`` (opt-in) gives the spPlate headers the other keywords real files carry next to COEFF0 / COEFF1,
+with values that do NOT simply repeat them: per file one of the styles 'sdss' (CRPIX1 = 1, CRVAL1 = COEFF0, CD1_1 = COEFF1,
+CTYPE1, DC-FLAG), 'crpix' (the same solution referred to pixel CRPIX1 != 1: CRVAL1 = COEFF0 + (CRPIX1-1)*COEFF1),
+'inconsistent' (CRVAL1 / CD1_1 / CDELT1 describe another solution), 'wat' (IRAF WAT cards + CDELT1), 'none'; the other
+image HDUs and the plug-map table repeat COEFF0 / COEFF1 / CRVAL1 with other values.  readspec documents COEFF0 / COEFF1
+of the primary header as the wavelength solution: ``loglam(file_rec)`` is always that.  ``file_rec['header']`` holds the
+style and the cards written.
+
 ``add_file(desc, spec)`` / ``remove_file(desc, plate, mjd)`` change a tree that was already read (a later MJD is
 delivered, the latest one withdrawn, a file replaced under the same name with other ids): external state is an input.
 
@@ -233,6 +241,28 @@ def _spectra(file_rec, rng):
     return (base + rng.normal(0, 0.1, base.shape)).astype('f4')
 
 
+def _vary_header(seed, position, c0, c1, npix):
+    import random
+    rv = random.Random('hdr|%s|%d' % (seed, position))
+    style = rv.choice(['sdss', 'crpix', 'crpix', 'inconsistent', 'inconsistent', 'wat', 'none'])
+    cards = {}
+    if style == 'sdss':
+        cards = {'CRPIX1': 1, 'CRVAL1': c0, 'CD1_1': c1, 'CTYPE1': 'LINEAR', 'DC-FLAG': 1}
+    elif style == 'crpix':
+        k = rv.choice([2, 19, npix, rv.randint(2, 64)])
+        cards = {'CRPIX1': k, 'CRVAL1': c0 + (k - 1) * c1, 'CD1_1': c1, 'CDELT1': c1, 'CTYPE1': 'LINEAR', 'DC-FLAG': 1}
+    elif style == 'inconsistent':
+        cards = {'CRPIX1': rv.choice([1, 1, 0, 5]), 'CRVAL1': round(c0 + rv.choice([0.01, -0.02, 0.3]), 4),
+                 'CD1_1': c1 * rv.choice([2, 0.5, 1]), 'CDELT1': c1 * 3, 'CTYPE1': 'WAVE-LOG', 'DC-FLAG': 0}
+    elif style == 'wat':
+        cards = {'WAT0_001': 'system=linear', 'WAT1_001': 'wtype=linear label=Wavelength units=Angstroms',
+                 'CDELT1': c1 * 2, 'CRVAL1': round(c0 + 0.05, 4), 'LTM1_1': 1.0}
+    # what the other HDUs say about the wavelengths (never the documented source)
+    other = {'COEFF0': round(c0 + rv.choice([0.1, -0.1, 0.003]), 4), 'COEFF1': c1 * rv.choice([2, 3, 0.5]),
+             'CRVAL1': round(c0 - 0.2, 4), 'CD1_1': c1 * 5, 'CRPIX1': 7} if rv.random() < 0.7 else {}
+    return {'style': style, 'cards': cards, 'other_hdus': other}
+
+
 def write_spplate(path, file_rec, content='ids', rng=None, extra_header=None):
     nf, npix, fi = file_rec['nfiber'], file_rec['npix'], file_rec['index']
     fib = np.arange(1, nf + 1)[:, None]
@@ -255,12 +285,24 @@ def write_spplate(path, file_rec, content='ids', rng=None, extra_header=None):
                 img = np.zeros((nf, npix), dtype=IMAGE_DTYPE[name])
             h = fits.PrimaryHDU(img) if k == 0 else fits.ImageHDU(img)
             if k == 0:
+                hv = file_rec.get('header') or {}
+                cards = dict(hv.get('cards') or {})
+                # real headers carry the WCS cards BEFORE the SDSS-specific ones
+                for kk in ('CRVAL1', 'CD1_1', 'CRPIX1', 'CDELT1', 'CTYPE1', 'DC-FLAG', 'WAT0_001', 'WAT1_001', 'LTM1_1'):
+                    if kk in cards:
+                        h.header[kk] = cards[kk]
                 h.header['COEFF0'] = file_rec['coeff0']
                 h.header['COEFF1'] = file_rec['coeff1']
                 h.header['PLATEID'] = file_rec['plate']
                 h.header['MJD'] = file_rec['mjd']
                 for kk, vv in (extra_header or {}).items():
                     h.header[kk] = vv
+            else:
+                for kk, vv in ((file_rec.get('header') or {}).get('other_hdus') or {}).items():
+                    h.header[kk] = vv
+        if name == 'plugmap':
+            for kk, vv in ((file_rec.get('header') or {}).get('other_hdus') or {}).items():
+                h.header[kk] = vv
         hdus.append(h)
     fits.HDUList(hdus).writeto(path, overwrite=True)
 
@@ -274,7 +316,7 @@ def _write_table_file(path, arr, header=None):
 
 def write_tree(root, plates, run2d='v5_7_0', run1d=None, layout='tree', zbest=True, zall=0,
                photoplate=None, platelist=False, file_base=0, content='ids', seed=0,
-               resolve='2010-05-23', table_variation=None):
+               resolve='2010-05-23', table_variation=None, header_variation=None):
     """Write a synthetic survey tree below ``root`` and return its description.
 
     plates     [(plate, mjd, nfiber, npix, coeff0, coeff1), ...]; the same plate may occur with several MJDs
@@ -288,6 +330,7 @@ def write_tree(root, plates, run2d='v5_7_0', run1d=None, layout='tree', zbest=Tr
     file_base  first file index used in the id codes
     content    'ids' (unique-id principle) or 'spectra' (smooth spectra, runnable through the pipeline)
     table_variation  None, or an int seed: per-file string widths, int16/32/64 and float32/64 columns, column order
+    header_variation None, or an int seed: WCS / WAT cards next to COEFF0/COEFF1 that do not repeat them (see module doc)
 
     Returned dict (JSON-able): root, topdir, path (flat layout), match, resolve, run2d, run1d, layout,
     files=[{index, plate, mjd, nfiber, npix, coeff0, coeff1, dir, spplate, zbest, zall, photoplate}],
@@ -307,7 +350,7 @@ def write_tree(root, plates, run2d='v5_7_0', run1d=None, layout='tree', zbest=Tr
             'resolve': os.path.join(root, 'resolve', resolve), 'run2d': run2d, 'run1d': run1d,
             'layout': layout, 'files': [], 'key': {}, 'latest': {}, 'nper': int(zall), 'content': content,
             'has_zbest': bool(zbest), 'photoplate': photoplate, 'platelist': bool(platelist),
-            'table_variation': table_variation,
+            'table_variation': table_variation, 'header_variation': header_variation,
             'columns': {t: [list(c) for c in TABLE_COLUMNS[t] + (VAR_COLUMNS[t] if table_variation is not None else ())]
                         for t in TABLE_COLUMNS}}
     os.makedirs(topdir, exist_ok=True)
@@ -354,7 +397,9 @@ def add_file(desc, spec, _rng=None, _platelist=True):
     rec = {'index': desc['file_base'] + n, 'plate': plate, 'mjd': mjd, 'nfiber': nfiber, 'npix': npix,
            'coeff0': float(c0), 'coeff1': float(c1), 'dir': d,
            'spplate': os.path.join(d, 'spPlate-%s.fits' % pm), 'zbest': None, 'zall': None, 'photoplate': None,
-           'tab': _vary_tables(tv, n) if tv is not None else None}
+           'tab': _vary_tables(tv, n) if tv is not None else None,
+           'header': _vary_header(desc['header_variation'], n, float(c0), float(c1), npix)
+           if desc.get('header_variation') is not None else None}
     os.makedirs(os.path.join(d, run1d), exist_ok=True)
     write_spplate(rec['spplate'], rec, content=content, rng=_rng)
     if desc['has_zbest']:
